@@ -440,6 +440,13 @@ structure Select where
   guardNonEmpty : Bool           -- `if <expr> and expression.evaluate(…)`
   closure : Bool                 -- `update(task_and_preceding_tasks(…))` instead of `add(signature)`
   deriving Repr, DecidableEq
+/-- One `if <guard on remaining>: _deselect_others_with_mark(session, remaining, Mark(markName, …))` of
+`select_tasks_by_marks_and_expressions`. -/
+structure Deselect where
+  selectFn : String              -- whose result `remaining` is
+  guard : String                 -- "isNotNone" (`remaining is not None`: None = option not given) | "truthy" (`if remaining:`)
+  markName : String              -- the mark attached to every task whose signature is not in `remaining`
+  deriving Repr, DecidableEq
 /-- The string branch of the loop over `session.tasks` in `_modify_dag` (dag.py). -/
 structure AfterLoop where
   selectFn : String              -- the function evaluated on (session, after) in every iteration
@@ -1102,6 +1109,80 @@ def select_facts(mod: ast.Module):
     return out
 
 
+# ---- `select_tasks_by_marks_and_expressions`: from the selection sets to deselected tasks --------------------------------------
+
+def deselect_facts(mod: ast.Module):
+    def fn_of(name):
+        f = [n for n in mod.body if isinstance(n, ast.FunctionDef) and n.name == name]
+        if len(f) != 1:
+            raise _mE(f"{name} not found")
+        return f[0]
+    top = fn_of("select_tasks_by_marks_and_expressions")
+    params = [a.arg for a in top.args.args]
+    if len(params) != 2:
+        raise _mE("select_tasks_by_marks_and_expressions: expected (session, dag)")
+    session, dag = params
+    results = {}      # variable -> select function
+    steps = []
+    seen_if = False
+    for st in _stmts(top):
+        t = _target(st)
+        if t is not None:
+            v = t[1]
+            if (isinstance(v, ast.Call) and isinstance(v.func, ast.Name) and v.func.id in ("select_by_keyword", "select_by_mark")
+                    and [ast.unparse(a) for a in v.args] == [session, dag] and not v.keywords):
+                if seen_if:
+                    raise _mE("a selection is evaluated after tasks were deselected (the attached skip marks would be visible to it)")
+                if v.func.id in results.values():
+                    raise _mE(f"{v.func.id} is evaluated twice")
+                results[t[0]] = v.func.id
+                continue
+            raise _mE(f"select_tasks_by_marks_and_expressions: unrecognised statement {ast.unparse(st)!r}")
+        if isinstance(st, ast.If) and not st.orelse and len(st.body) == 1:
+            seen_if = True
+            test = st.test
+            var = guard = None
+            if isinstance(test, ast.Name):
+                var, guard = test.id, "truthy"
+            elif (isinstance(test, ast.Compare) and len(test.ops) == 1 and isinstance(test.left, ast.Name)
+                  and isinstance(test.comparators[0], ast.Constant) and test.comparators[0].value is None):
+                if isinstance(test.ops[0], (ast.IsNot, ast.NotEq)):
+                    var, guard = test.left.id, "isNotNone"
+            elif (isinstance(test, ast.Call) and isinstance(test.func, ast.Name) and test.func.id in ("bool", "len") and len(test.args) == 1
+                  and isinstance(test.args[0], ast.Name)):
+                var, guard = test.args[0].id, "truthy"
+            if var is None or var not in results:
+                raise _mE(f"guard {ast.unparse(test)!r} is not a test on a selection result")
+            call = st.body[0].value if isinstance(st.body[0], ast.Expr) else None
+            if not (isinstance(call, ast.Call) and isinstance(call.func, ast.Name) and call.func.id == "_deselect_others_with_mark"
+                    and len(call.args) == 3 and not call.keywords and ast.unparse(call.args[0]) == session and ast.unparse(call.args[1]) == var):
+                raise _mE(f"guarded statement {ast.unparse(st.body[0])!r} is not `_deselect_others_with_mark(session, {var}, Mark(…))`")
+            mk = call.args[2]
+            if not (isinstance(mk, ast.Call) and ast.unparse(mk.func) == "Mark" and mk.args and isinstance(mk.args[0], ast.Constant)
+                    and isinstance(mk.args[0].value, str)):
+                raise _mE("the deselection mark is not `Mark(\"<name>\", …)`")
+            steps.append((results[var], guard, mk.args[0].value))
+            continue
+        raise _mE(f"select_tasks_by_marks_and_expressions: unrecognised statement {ast.unparse(st)!r}")
+    if sorted(x[0] for x in steps) != ["select_by_keyword", "select_by_mark"]:
+        raise _mE("not exactly one deselection step per selection")
+    # _deselect_others_with_mark: for task in session.tasks: if task.signature not in remaining: task.markers.append(mark)
+    d = fn_of("_deselect_others_with_mark")
+    dp = [a.arg for a in d.args.args]
+    body = _stmts(d)
+    ok = False
+    if len(dp) == 3 and len(body) == 1 and isinstance(body[0], ast.For) and ast.unparse(body[0].iter) == f"{dp[0]}.tasks" \
+            and isinstance(body[0].target, ast.Name) and len(body[0].body) == 1 and isinstance(body[0].body[0], ast.If) and not body[0].body[0].orelse:
+        tk = body[0].target.id
+        iff = body[0].body[0]
+        if ast.unparse(iff.test) == f"{tk}.signature not in {dp[1]}" and len(iff.body) == 1 \
+                and ast.unparse(iff.body[0]) == f"{tk}.markers.append({dp[2]})":
+            ok = True
+    if not ok:
+        raise _mE("_deselect_others_with_mark is not `for task in session.tasks: if task.signature not in remaining: task.markers.append(mark)`")
+    return steps
+
+
 # ---- `_modify_dag` (dag.py): the per-task evaluation of `after="<expr>"` -------------------------------------------------------
 
 def _dE(msg):
@@ -1310,6 +1391,7 @@ def grammar_section() -> list[str]:
     mf = matcher_facts(mmod)
     sf = select_facts(mmod)
     al = after_loop_facts(dmod)
+    ds = deselect_facts(mmod)
     b = X.lean_bool
     L = [GRAM_SCHEMA]
 
@@ -1341,6 +1423,8 @@ def grammar_section() -> list[str]:
         s = sf[fname]
         L.append(f"def {key} : Gram.Select := {{ noneWhenEmpty := {b(s['none'])}, parseErrorIsError := true, matcher := {_lean_s(s['matcher'])}, "
                  f"guardNonEmpty := {b(s['guard'])}, closure := {b(s['closure'])} }}")
+    L.append("/-- `select_tasks_by_marks_and_expressions`: both selections are evaluated first, then these steps run in order. -/")
+    L.append("def deselectSteps : List Gram.Deselect := " + X.lean_list(ds, lambda r: f"{{ selectFn := {_lean_s(r[0])}, guard := {_lean_s(r[1])}, markName := {_lean_s(r[2])} }}"))
     L.append("/-- `_modify_dag`: how `after=\"<expr>\"` is turned into edges, per task. -/")
     L.append(f"def afterLoop : Gram.AfterLoop := {{ selectFn := {_lean_s(al['fn'])}, discardsSelf := {b(al['discards'])}, "
              f"viaSuccessors := {b(al['edges'])}, stateless := true }}")
